@@ -221,4 +221,48 @@ theorem parity_add (a b : Int) : parity (a + b) = parity a * parity b := by
     simp [Int.add_emod, ha, hb]
 
 
+theorem mem_gridX {kx ky : List K} {a : K} (h : a ∈ gridX kx ky) : a ∈ kx := by
+  simp only [gridX, List.mem_flatMap] at h
+  obtain ⟨_, _, h⟩ := h; exact h
+
+theorem mem_gridY {kx ky : List K} {b : K} (h : b ∈ gridY kx ky) : b ∈ ky := by
+  simp only [gridY, List.mem_flatMap, List.mem_map] at h
+  obtain ⟨b', hb', _, _, rfl⟩ := h; exact hb'
+
+/-- two successive phase ramps multiply to the ramp of the summed shift (no reduction of the shift anywhere) -/
+theorem applyShift_applyShift [CommRing K] [CommRing F] (χ : K → F) (hχ : ∀ a b, χ (a + b) = χ a * χ b)
+    (sx sy tx ty : K) : ∀ (C : List F) (A B : List K),
+    applyShift χ (applyShift χ C (List.zipWith (fun a b => sy * b + sx * a) A B))
+        (List.zipWith (fun a b => ty * b + tx * a) A B)
+      = applyShift χ C (List.zipWith (fun a b => (sy + ty) * b + (sx + tx) * a) A B)
+  | [], _, _ => by simp [applyShift]
+  | _ :: _, [], _ => by simp [applyShift]
+  | _ :: _, _ :: _, [] => by simp [applyShift]
+  | c :: C, a :: A, b :: B => by
+    have ih := applyShift_applyShift χ hχ sx sy tx ty C A B
+    simp only [applyShift] at ih ⊢
+    simp only [List.zipWith_cons_cons, ih, List.cons.injEq, and_true]
+    rw [mul_assoc, ← hχ]
+    congr 2
+    ring
+
+/-- if the character is 1 on `P·k` for every frequency pair of the lattice, adding `P` to the shift changes nothing -/
+theorem applyShift_period [CommRing K] [CommRing F] (χ : K → F) (hχ : ∀ a b, χ (a + b) = χ a * χ b)
+    (sx sy px py : K) : ∀ (C : List F) (A B : List K),
+    (∀ a ∈ A, ∀ b ∈ B, χ (-(py * b + px * a)) = 1) →
+    applyShift χ C (List.zipWith (fun a b => (sy + py) * b + (sx + px) * a) A B)
+      = applyShift χ C (List.zipWith (fun a b => sy * b + sx * a) A B)
+  | [], _, _, _ => by simp [applyShift]
+  | _ :: _, [], _, _ => by simp [applyShift]
+  | _ :: _, _ :: _, [], _ => by simp [applyShift]
+  | c :: C, a :: A, b :: B, h => by
+    have ih := applyShift_period χ hχ sx sy px py C A B
+      (fun a' ha' b' hb' => h a' (by simp [ha']) b' (by simp [hb']))
+    simp only [applyShift] at ih ⊢
+    simp only [List.zipWith_cons_cons, ih, List.cons.injEq, and_true]
+    have h1 := h a (by simp) b (by simp)
+    have : -((sy + py) * b + (sx + px) * a) = -(sy * b + sx * a) + -(py * b + px * a) := by ring
+    rw [this, hχ, h1, mul_one]
+
+
 end HcipyVerif.Shift
